@@ -2,6 +2,7 @@ package c05
 
 import (
 	"fmt"
+	"os"
 	"runtime"
 	"strings"
 	"time"
@@ -14,6 +15,9 @@ import (
 )
 
 func init() { rt.Register("c05define", RunDefine) }
+
+// dbg, when C05_DEBUG names a file, receives the lambda about to be evaluated (to identify a process-fatal input).
+var dbg *os.File
 
 // token alphabet: every sequence up to the length bound is offered as a TICKscript
 var tokens = []string{
@@ -91,8 +95,16 @@ func runOne(env *rt.Env, task *kapacitor.Task, t *tally, bad *[]string) {
 	}
 }
 
+var lastLambda string
+
 func lambdaOne(src string, t *tally, bad *[]string) {
 	t.n++
+	lastLambda = src
+	if dbg != nil {
+		dbg.Seek(0, 0)
+		dbg.Truncate(0)
+		dbg.WriteString(src)
+	}
 	defer func() {
 		if x := recover(); x != nil {
 			t.panics++
@@ -126,6 +138,9 @@ var lambdaTokens = []string{"\"x\"", "\"f\"", "1", "0", "1.0", "'s'", "1s", "/r/
 // offered to TaskMaster.NewTask / ast.ParseLambda + stateful evaluation; the outcome
 // must be a task or an error, never a panic, hang or goroutine leak.
 func RunDefine(r *rt.Run) error {
+	if f := os.Getenv("C05_DEBUG"); f != "" {
+		dbg, _ = os.Create(f)
+	}
 	env, err := rt.NewEnv(rt.EnvOpts{})
 	if err != nil {
 		return err
